@@ -43,6 +43,8 @@ pub struct GenOpts {
     pub huge_pct: u64,
     /// chance (percent) that a wrapped iterator is not fused
     pub nonfused_pct: u64,
+    /// chance (percent) that the exact size hint of a wrapped iterator under-reports
+    pub short_hint_pct: u64,
 }
 
 impl GenOpts {
@@ -77,6 +79,7 @@ impl GenOpts {
             multi_iter: false,
             huge_pct: 0,
             nonfused_pct: 0,
+            short_hint_pct: 0,
         }
     }
 }
@@ -147,6 +150,7 @@ pub fn opts_for(prop: &str) -> GenOpts {
         }
         "C05" => {
             o.nonfused_pct = 40;
+            o.short_hint_pct = 25;
             o.w_query = 10;
             o.extra_max = 24;
             o.max_ops = 3;
@@ -643,7 +647,7 @@ pub fn generate_with(prop: &str, o: &GenOpts, base_seed: u64, index: u64) -> Run
     } else {
         0
     };
-    RunCfg {
+    let mut cfg = RunCfg {
         prop: prop.to_string(),
         run_seed,
         kind,
@@ -667,12 +671,13 @@ pub fn generate_with(prop: &str, o: &GenOpts, base_seed: u64, index: u64) -> Run
             0
         },
         tail: {
-            // non-fused wrapped iterator (only with a hint that does not promise a length, and not
-            // followed by into_seq_iter, whose result for a non-fused source is not specified)
+            // non-fused wrapped iterator: after its first None (after `len` elements, which is
+            // also what an exact size hint announces) it would yield further elements if it were
+            // asked again; not followed by into_seq_iter, whose result for a non-fused source is
+            // not specified
             let t = rng.range(1, 3);
             if o.nonfused_pct > 0
                 && kind.is_iter()
-                && hint != Hint::Exact
                 && terminal == Terminal::Drop
                 && rng.chance(o.nonfused_pct, 100)
             {
@@ -681,8 +686,22 @@ pub fn generate_with(prop: &str, o: &GenOpts, base_seed: u64, index: u64) -> Run
                 0
             }
         },
+        hint_short: 0,
         sim,
+    };
+    // a source that yields more than its exact size hint announced (refilled after creation, or
+    // a sloppy adaptor): the end may only be reported once the wrapped iterator returned None
+    // (seeded change C05-r4)
+    if o.short_hint_pct > 0
+        && kind.is_iter()
+        && hint == Hint::Exact
+        && cfg.tail == 0
+        && len >= 2
+        && rng.chance(o.short_hint_pct, 100)
+    {
+        cfg.hint_short = rng.range(1, len - 1);
     }
+    cfg
 }
 
 /// run indices from here on use the larger scopes of the thorough tier
@@ -857,6 +876,7 @@ pub fn generate_c16(base_seed: u64, index: u64, schedules_per_point: u64) -> Run
         panic: None,
         consume_nth: ((index / 7) % 3) as usize % 2,
         tail: 0,
+        hint_short: 0,
         finish: ((index / 11) % 3) as u8,
         sim,
     }
